@@ -33,12 +33,21 @@ func (l *lexer) Lex(yylval *gritsSymType) int {
 	yylval.currPosition = position.Position{StartLine: len(startPos.Lines) + 1, StartPos: startPos.Char}
 	yylval.strval = strval
 
+	if token == kILLEGAL && strval != "" {
+		// An illegal character shares its token code with the end of the input, so the
+		// parser would stop here and silently ignore the rest of the text: report it.
+		l.Error(fmt.Sprintf("illegal character %q", strval))
+	}
+
 	return int(token)
 }
 
-// Error handles error.
+// Error handles error. Only the first error is kept.
 func (l *lexer) Error(err string) {
-	l.Errors <- &ParseError{Err: err, Pos: l.scanner.pos}
+	select {
+	case l.Errors <- &ParseError{Err: err, Pos: l.scanner.pos}:
+	default:
+	}
 }
 
 func LexAndPrintTokens(file io.Reader) {
